@@ -272,3 +272,9 @@ U("mod.deregister", src="units/mod_unit.c", harness="h_mod_deregister", enforce=
 U("mod.evaluate", src="units/mod_unit.c", harness="h_evaluate_module", enforce="evaluate_module",
   replace=["m_mod_is", "fetch_ms", "optional_hook", "start", "m_bst_itr_new"], logctx="CORE",
   props=["C01", "C04"], contract_files=MODC, native=False, timeout=300, min_obligations=30)
+for _h, _fn, _callee in (("m_start", "m_mod_start", "start"), ("m_pause", "m_mod_pause", "stop"), ("m_resume", "m_mod_resume", "start"), ("m_stop", "m_mod_stop", "stop")):
+    U("mod." + _h, src="units/mod_unit.c", harness="h_" + _h, enforce=_fn, replace=["m_ctx", "m_mod_is", "fetch_ms", _callee, "m_list_itr_new"], logctx="CORE",
+      props=["C01", "C18", "C14", "C07", "C04"], contract_files=MODC, native=False, timeout=300, min_obligations=30, enforce_rec=True)
+PROPS["C14"] = {"level": "proof", "level_text": "TODO", "level_note": "TODO", "not_decided": [], "explanation": "TODO"}
+PROPS["C07"] = {"level": "proof", "level_text": "TODO", "level_note": "TODO", "not_decided": [], "explanation": "TODO"}
+PROPS["C15"] = {"level": "proof", "level_text": "TODO", "level_note": "TODO", "not_decided": [], "explanation": "TODO"}
